@@ -112,8 +112,13 @@ func (pp *piecePool) qualify(text, src string) *piece {
 		}
 		if realHas && !modelHas {
 			obs := safeParse([]byte(text), int64(4000*(len(pt)+16)))
-			pp.w.Report(Finding{Kind: "script", Key: "script@semicolon-in-trivia", Input: fmt.Sprintf("%q", text), InputHex: hexs([]byte(text)),
-				Detail: fmt.Sprintf("every `;` of this text is inside a literal or a comment (reference lexer: no SEMICOLON token), yet the lexer emits a SEMICOLON token and Parse returns %d statement(s), err=%v", len(obs.Stmts), errString(obs.Err))})
+			if len(obs.Stmts) != 1 || obs.Err != nil {
+				pp.w.Report(Finding{Kind: "script", Key: "script@semicolon-in-trivia", Input: fmt.Sprintf("%q", text), InputHex: hexs([]byte(text)),
+					Detail: fmt.Sprintf("every `;` of this text is inside a literal or a comment (reference lexer: no SEMICOLON token), yet the lexer emits a SEMICOLON token and Parse returns %d statement(s), err=%v", len(obs.Stmts), errString(obs.Err))})
+			} else {
+				pp.w.Report(Finding{Kind: "model-disagreement", Key: "script@semicolon-token-in-trivia", Input: fmt.Sprintf("%q", text), InputHex: hexs([]byte(text)), Disagreement: true, Obligation: "lexer-correspondence",
+					Detail: "the reference lexer sees no SEMICOLON token in this text, the lexer under test does (the parse result happens to be the same here)"})
+			}
 		}
 	}
 	hasInsert := false
